@@ -154,7 +154,15 @@ class Interp(ExprMixin):
     def s_Import(self, st):
         return None
 
-    s_ImportFrom = s_Import
+    def s_ImportFrom(self, st):
+        """a local `from m import f` of something outside the package binds f to the external m.f (imports of the package's own
+        modules keep going through the project's name resolution)"""
+        if st.level == 0 and st.module and not st.module.startswith("processscheduler"):
+            for al in st.names:
+                if al.name != "*":
+                    self.frame.env[al.asname or al.name] = ExtRef(f"{st.module}.{al.name}")
+        return None
+
     s_Global = s_Import
     s_Nonlocal = s_Import
 
